@@ -485,6 +485,7 @@ fn resolve_vertex_type_implementer_edge<'a>(
         schema
             .subtypes(vertex.defn.name.node.as_str())
             .expect("input type was not part of this schema")
+            .filter(|implementer_type| *implementer_type != vertex.defn.name.node.as_str())
             .filter_map(|implementer_type| {
                 schema
                     .vertex_types
